@@ -1508,13 +1508,27 @@ func (c *Client) User(name string) (meta2.User, error) {
 	c.mu.RLock()
 	defer c.mu.RUnlock()
 
-	for _, u := range c.cacheData.Users {
-		if u.Name == name {
-			return &u, nil
+	for i := range c.cacheData.Users {
+		if c.cacheData.Users[i].Name == name {
+			return snapshotUser(&c.cacheData.Users[i]), nil
 		}
 	}
 
 	return nil, meta2.ErrUserNotFound
+}
+
+// snapshotUser returns a private copy of a user record of the cached meta data. The cache is updated in place
+// (applyDataOps): a pointer into it, or its privilege map, must not leave the lock - after a DROP USER the slot
+// holds another user, and a GRANT writes the map a request may be reading.
+func snapshotUser(u *meta2.UserInfo) *meta2.UserInfo {
+	cp := *u
+	if u.Privileges != nil {
+		cp.Privileges = make(map[string]originql.Privilege, len(u.Privileges))
+		for db, p := range u.Privileges {
+			cp.Privileges[db] = p
+		}
+	}
+	return &cp
 }
 
 // CreateUser adds a user with the given name and password and admin status.
@@ -1759,6 +1773,9 @@ func (c *Client) Authenticate(username, password string) (u meta2.User, e error)
 	// Find user.
 	c.mu.RLock()
 	userInfo := c.cacheData.GetUser(username)
+	if userInfo != nil {
+		userInfo = snapshotUser(userInfo)
+	}
 	c.mu.RUnlock()
 	if userInfo == nil {
 		return nil, meta2.ErrUserNotFound
